@@ -51,6 +51,12 @@ Theorem C12_tx_cancel_partial : forall s names reports,
   ls_tx (exec_cancel s names reports) = ls_tx s /\
   ls_tx_failed s <= ls_tx_failed (exec_cancel s names reports) <= ls_tx_failed s + Z.of_nat (length (filter (fun br => match snd br with CFailure _ => true | _ => false end) reports)).
 Proof. exact tx_exec_cancel. Qed.
+(* ... and exactly the FAILURE reports when the exchange answers each instruction of the package at most once (one report per bet, every
+   report for a bet of the package) - in any order, with any of them missing *)
+Theorem C12_tx_cancel_exact : forall s names reports,
+  NoDup (map fst reports) -> (forall br, In br reports -> by_bet s (pkg_orders s names) (fst br) <> None) ->
+  ls_tx_failed (exec_cancel s names reports) = ls_tx_failed s + count_failures reports.
+Proof. exact tx_exec_cancel_exact. Qed.
 Theorem C12_tx_exhausted : forall s names c, txr s (reset_orders s names c).
 Proof. exact tx_reset_orders. Qed.
 Print Assumptions C12_tx_place.
